@@ -38,12 +38,13 @@ class Listener(threading.Thread):
                 c.close()
 
 
-def build_app(prot, relaxed=False):
+def build_app(prot, relaxed=False, validator=None):
     from spyne import Application, Service, srpc, ComplexModel, Unicode, Integer, Array, XmlAttribute
     from spyne.protocol.xml import XmlDocument
     from spyne.protocol.soap import Soap11, Soap12
     from spyne.server.wsgi import WsgiApplication
     seen = []
+    nodes = [0]
 
     class C(ComplexModel):
         __namespace__ = 'tns'
@@ -56,8 +57,21 @@ def build_app(prot, relaxed=False):
             return u'|'.join(str(x) for x in seen[-1])
     P = {'xml': XmlDocument, 'soap11': Soap11, 'soap12': Soap12}[prot]
     kw = dict(resolve_entities=True, load_dtd=True, attribute_defaults=True, no_network=False, huge_tree=True) if relaxed else {}
+    if validator:
+        kw['validator'] = validator
     app = Application([Svc], 'tns', in_protocol=P(**kw), out_protocol=P())
-    return app, WsgiApplication(app), seen
+
+    def count_nodes(ctx):
+        # the request document as deserialization gets it (SOAP: after the references were resolved)
+        try:
+            nodes[0] = sum(1 for _ in ctx.in_body_doc.iter())
+        except Exception:
+            nodes[0] = -1
+    app.event_manager.add_listener('method_call', count_nodes)
+    seen_nodes = nodes
+    w = WsgiApplication(app)
+    w.c17_nodes = nodes
+    return app, w, seen
 
 
 def document(a, canary, dtd, port):
@@ -106,6 +120,9 @@ def document(a, canary, dtd, port):
     elif k.startswith('nest_'):
         n = int(k[5:])
         ent = '<d>' * n + 'deep' + '</d>' * n
+    elif k.startswith('href_fanout_'):
+        fan, depth = [int(x) for x in k[12:].split('x')]
+        ent = ''
     elif k.startswith('attrs_'):
         ent = 'v'
     extra_attrs = ''.join(' a%d="1"' % i for i in range(int(k[6:]))) if k.startswith('attrs_') else ''
@@ -120,6 +137,13 @@ def document(a, canary, dtd, port):
     item = 'g' + (ent if pos == 'text_item' else '') + 'h'
     body = ('<tns:f xmlns:tns="tns"><tns:s>%s</tns:s><tns:n>%s</tns:n><tns:c a="%s"%s><tns:t>%s</tns:t></tns:c>'
             '<tns:xs><tns:string>%s</tns:string></tns:xs></tns:f>' % (s, n, av, extra_attrs, t, item))
+    if k.startswith('href_fanout_'):
+        # the member c is a reference to r0; r_i holds `fan` references to r_(i+1); the last one holds the text
+        body = ('<tns:f xmlns:tns="tns"><tns:s>ab</tns:s><tns:n>5</tns:n><tns:c href="#r0"/>'
+                '<tns:xs><tns:string>gh</tns:string></tns:xs></tns:f>')
+        for i in range(depth):
+            body += '<r%d id="r%d">%s</r%d>' % (i, i, ('<tns:t xmlns:tns="tns" href="#r%d"/>' % (i + 1)) * fan, i)
+        body += '<r%d id="r%d">leaf</r%d>' % (depth, depth, depth)
     return prolog, body
 
 
@@ -176,6 +200,8 @@ def send(a, app, wsgi, seen, doc, ct):
     out['seconds10'] = int((time.time() - t0) * 10)
     out['mb'] = max(0, (resource.getrusage(resource.RUSAGE_SELF).ru_maxrss - r0) // 1024)
     out['called'] = len(seen) > 0
+    out['nodes'] = wsgi.c17_nodes[0] if out['called'] else 0
+    out['reqnodes'] = doc.count(b'</') + doc.count(b'/>')
     out['client'] = 'Client' in out['text'] or 'Sender' in out['text']
     delivered = json.dumps(seen[0]) if seen else ''
     out['delivered'] = delivered[:300]
@@ -196,9 +222,9 @@ def main():
     res = []
     for a in d['attacks']:
         n += 1
-        key = a['prot']
+        key = (a['prot'], a.get('validator', 'none'))
         if key not in apps:
-            apps[key] = build_app(a['prot'])
+            apps[key] = build_app(a['prot'], validator='lxml' if a.get('validator') == 'lxml' else None)
         app, wsgi, seen = apps[key]
         prolog, body = document(a, canary, dtd, lst.port)
         doc, ct = frame(a, prolog, body)
